@@ -53,9 +53,10 @@ ASSUMPTIONS = [
     'the decoder is given exactly the first `storage` bytes the encoder finished (exact-size heap block under ASan) and '
     'mirrors the encoder call sequence with the same tables and parameters',
     'the number of carry-pending 0xFF bytes stays below 2^32 (ext counter), guaranteed by buffer sizes <= 1275',
-    'theorem hypotheses: nbits_total (a C int) stays below 2^32 (decode_encode, lockstep_rng, decode_encode_patched; '
-    'derived from size <= 5*10^8 in done_within_budget); the caller buffer holds bytes (values < 256) and is at least '
-    '`size` long; decode_encode_patched additionally assumes a non-empty final buffer',
+    'theorem hypothesis nbits_total < 2^32 (decode_encode, lockstep_rng, decode_encode_patched and the theorems built on them): '
+    'nbits_total is a C int, an execution reaching 2^31 is signed overflow (undefined behaviour), so the hypothesis only '
+    'says the C type range was respected; it is derived from size <= 5*10^8 in done_within_budget; the caller buffer '
+    'holds bytes (values < 256) and is at least `size` long',
 ]
 LEVEL_TEXT = ('proof about an executable Lean transcription of entenc.c / entdec.c / entcode.c (struct ec_ctx field by field, '
               'opus_uint32 arithmetic modulo 2^32 made explicit), tied to the code by a differential run that compares the '
